@@ -659,7 +659,16 @@ func (w *world) listener() net.Listener {
 	if w.ln != nil {
 		return w.ln
 	}
-	l, err := net.Listen("tcp", "127.0.0.1:0")
+	// the suite opens tens of thousands of short-lived loopback connections; when the ephemeral port range is crowded
+	// with TIME_WAIT sockets a bind can fail transiently: retry for a while before giving up (giving up = inconclusive)
+	var l net.Listener
+	var err error
+	for attempt := 0; attempt < 300; attempt++ {
+		if l, err = net.Listen("tcp", "127.0.0.1:0"); err == nil {
+			break
+		}
+		time.Sleep(100 * time.Millisecond)
+	}
 	if err != nil {
 		return nil
 	}
@@ -1117,7 +1126,7 @@ func TestCheck(t *testing.T) {
 		r.Assume("after a refused (conflicting) object the statement leaves open whether its non-conflicting part takes effect; both outcomes are accepted and the observed one is adopted")
 		r.Assume("SNI values carry no port (RFC 6066); port variants are exercised through the Host-header paths (handler chain, SNIVerifyOptions)")
 
-		nh := r.N(3000, 20000)
+		nh := r.N(1500, 20000)
 		evPer := 15
 		workers := runtime.GOMAXPROCS(0)
 		if workers > 16 {
